@@ -1,2 +1,81 @@
-(** C08 - theorems under construction. *)
-From Coq Require Import ZArith.
+(** C08 - arbitrary bytes never cause undefined memory access (partial by nature: the theorems are
+    about the model, in which every unchecked site of /repo/src returns the outcome [UB] when its
+    side condition fails; the machine-level behaviour of the compiled unsafe code is observed by
+    the correspondence harness / Miri, not proved).
+    (1) list-level model: [parse_float] never returns [UB] for ANY byte lists and exponent, in all
+        eight configurations, both formats, both build modes (proofs/NoUB.v); the side condition
+        [ub_params_ok] on table lengths is discharged on the REGENERATED tables;
+    (2) cell-level model of the fixed-capacity vector (62 MaybeUninit cells + u16 length, raw
+        writes/copies, set_len): no history over the safe API reaches [UB] (proofs/RawVecFacts.v). *)
+
+From Coq Require Import ZArith List Bool.
+From ML Require Import base.RustSem model.Fmt model.Number model.Top model.Vec model.Bigint model.RawVec
+  gen.Consts gen.Tables gen.BTables gen.PowDump proofs.NoUB proofs.RawVecFacts.
+Import ListNotations.
+
+Open Scope Z_scope.
+
+Theorem C08_parse_float_no_UB :
+  forall (c : config) (T : tables) (BT : btables) (L : limits) (f : format) 
+           (b : build) (i fr : list Z) (e : Z),
+         ub_params_ok c T f = true -> forall k : ub_kind, parse_float c T BT L f b i fr e <> UB k.
+Proof. exact parse_float_no_UB. Qed.
+
+Theorem C08_parse_float_float_or_panic :
+  forall (c : config) (T : tables) (BT : btables) (L : limits) (f : format) 
+           (b : build) (i fr : list Z) (e : Z),
+         ub_params_ok c T f = true ->
+         (exists v : Z, parse_float c T BT L f b i fr e = Ok v) \/
+         (exists p : panic_kind, parse_float c T BT L f b i fr e = Panic p).
+Proof. exact parse_float_float_or_panic. Qed.
+
+Theorem C08_ub_params_ok_all :
+  forallb (fun c : config => ub_params_ok c TABLES F32 && ub_params_ok c TABLES F64) ALL_CONFIGS = true.
+Proof. exact ub_params_ok_all. Qed.
+
+Theorem C08_parse_float_no_UB_shipped :
+  forall (c : config) (f : format) (BT : btables) (L : limits) (b : build) (i fr : list Z) (e : Z),
+         In c ALL_CONFIGS ->
+         f = F32 \/ f = F64 -> forall k : ub_kind, parse_float c TABLES BT L f b i fr e <> UB k.
+Proof. exact parse_float_no_UB_shipped. Qed.
+
+Theorem C08_rawvec_history_no_ub :
+  forall (L : limits) (b : build),
+         limits_ok L -> forall ops : list vop, Forall op_ok ops -> is_ub (raw_run L b ops) = false.
+Proof. exact history_no_ub. Qed.
+
+Theorem C08_rawvec_step_total :
+  forall (L : limits) (b : build),
+         limits_ok L ->
+         forall (r : raw) (o : vop),
+         Inv L r ->
+         op_ok o ->
+         match spec_step L (abs r) o with
+         | Ok (l', out) => exists r' : raw, raw_step L b r o = Ok (r', out) /\ Inv L r' /\ abs r' = l'
+         | Panic k => raw_step L b r o = Panic k /\ k = PkIndex /\ set_oob (abs r) o
+         | UB _ => False
+         end.
+Proof. exact raw_step_total. Qed.
+
+Theorem C08_rawvec_shl_limbs_refines :
+  forall (L : limits) (b : build),
+         limits_ok L ->
+         forall (r : raw) (n : Z),
+         Inv L r ->
+         0 <= n < 2 ^ 32 ->
+         match Bigint.shl_limbs b (ref_vec L (abs r)) n with
+         | Ok (Some v) => exists r' : raw, shl_limbs L b r n = Ok (r', true) /\ Inv L r' /\ abs r' = vl v
+         | Ok None => shl_limbs L b r n = Ok (r, false)
+         | Panic k => shl_limbs L b r n = Panic k
+         | UB _ => False
+         end.
+Proof. exact shl_limbs_refines. Qed.
+
+
+Print Assumptions C08_parse_float_no_UB.
+Print Assumptions C08_parse_float_float_or_panic.
+Print Assumptions C08_ub_params_ok_all.
+Print Assumptions C08_parse_float_no_UB_shipped.
+Print Assumptions C08_rawvec_history_no_ub.
+Print Assumptions C08_rawvec_step_total.
+Print Assumptions C08_rawvec_shl_limbs_refines.
